@@ -5,6 +5,8 @@ counted as generator misses and never used.  Every decision goes through a
 Chooser.  No double-underscore keywords are produced."""
 import collections
 
+from . import cmodel as M
+
 PRE99 = """typedef int T; typedef unsigned long UL;
 struct S { int m; double d; int a[3]; struct S *next; unsigned bf : 3; unsigned : 0; int bg : 5; };
 union U { int i; double f; };
@@ -55,6 +57,7 @@ class SG:
         self.features = collections.Counter()
         self.excluded = collections.Counter()
         self.nstmts = 0
+        self.mode = c.choice(["min", "min", "red", "full"])
 
     def on(self, feature, p=None):
         if p is not None and not self.c.chance(p):
@@ -72,113 +75,145 @@ class SG:
     def vars(self, ty, writable=False):
         return [n for sc in self.scopes for n, t in sc.items() if t == ty and not (writable and n in self.consts)]
 
-    def P(self, x):
-        return "(" + x + ")"
 
     # -- expressions
+    # Expression builders return (text, grammar level); W() adds the
+    # parentheses a context of level `need` requires - only those in 'min'
+    # mode, around every non-primary operand in 'full' mode, randomly in 'red'
+    # mode - so that unparenthesised chains (a ? b : c ? d : e, a - b - c,
+    # a * b + c) reach the compiler exactly as the C grammar groups them.
+    def W(self, pair, need):
+        text, lv = pair
+        wrap = lv < need
+        if not wrap and lv < M.L_PRIMARY:
+            if self.mode == "full":
+                wrap = True
+            elif self.mode == "red" and self.c.chance(0.3):
+                wrap = True
+        return "(" + text + ")" if wrap else text
+
     def ilit(self):
         pool = INT_LITS + (INT_LITS11 if self.c11 else [])
-        return self.c.choice(pool)
+        v = self.c.choice(pool)
+        return (v, M.L_CAST if v.startswith("(int)") else M.L_PRIMARY)
 
     def lv_int(self, d):
+        """an int lvalue: (text, level)"""
         c = self.c
         cand = []
         v = self.vars("int", writable=True)
         if v:
-            cand += [c.choice(v)] * 3
-        ix = (lambda: self.e_int(d - 1)) if d > 0 else (lambda: c.choice(["0", "1", "2"]))
-        cand += ["gs.m", "gsp->m", "gu.i", "ga[%s & 3]" % ix(), "(*gp)", "gs.a[1]", "gs.a[%s & 1]" % ix(), "gsp->next->m"]
+            cand += [(c.choice(v), M.L_PRIMARY)] * 3
+        ix = (lambda: self.W(self.e_int(d - 1), M.BIN["&"] + 1)) if d > 0 else (lambda: c.choice(["0", "1", "2"]))
+        cand += [("gs.m", M.L_POSTFIX), ("gsp->m", M.L_POSTFIX), ("gu.i", M.L_POSTFIX), ("ga[%s & 3]" % ix(), M.L_POSTFIX), ("*gp", M.L_UNARY),
+                 ("gs.a[1]", M.L_POSTFIX), ("gs.a[%s & 1]" % ix(), M.L_POSTFIX), ("gsp->next->m", M.L_POSTFIX)]  # fmt: skip
         if self.c11:
-            cand += ["ga11.ax", "ga11.au"]
+            cand += [("ga11.ax", M.L_POSTFIX), ("ga11.au", M.L_POSTFIX)]
         a = self.vars("int*")
         if a:
-            cand.append("*" + c.choice(a))
-            cand.append(c.choice(a) + "[0]")
+            cand.append(("*" + c.choice(a), M.L_UNARY))
+            cand.append((c.choice(a) + "[0]", M.L_POSTFIX))
         return c.choice(cand)
 
     def e_int(self, d):
         c = self.c
+        W = self.W
         if d <= 0 or c.chance(0.25):
             return c.choice([self.ilit(), self.lv_int(0), self.ilit()])
-        k = c.below(26)
+        k = c.below(27)
         e = lambda: self.e_int(d - 1)  # noqa: E731
-        if k < 5:
+        if k < 6:
             op = c.choice(["+", "-", "*", "/", "%", "<<", ">>", "&", "|", "^", "&&", "||", "==", "!=", "<", ">", "<=", ">="])
-            if self.c.chance(0.5):
-                return "%s %s %s" % (self.P(e()), op, self.P(e()))
-            return "%s %s %s" % (self.atom(d), op, self.atom(d))
-        if k == 5:
-            return c.choice(["-", "+", "~", "!"]) + self.P(e())
+            lv = M.BIN[op]
+            return ("%s %s %s" % (W(e(), lv), op, W(e(), lv + 1)), lv)
         if k == 6:
-            return "%s ? %s : %s" % (self.P(e()), e(), self.P(e()))
-        if k == 7:
-            return "(%s, %s)" % (e(), e())
-        if k == 8:
-            return "(%s %s %s)" % (self.lv_int(d), c.choice(["=", "+=", "-=", "*=", "/=", "%=", "<<=", ">>=", "&=", "|=", "^="]), e())
+            return (c.choice(["-", "+", "~", "!"]) + " " + W(e(), M.L_CAST), M.L_UNARY)
+        if k == 7 or k == 8:
+            return ("%s ? %s : %s" % (W(e(), 1), W(e(), M.L_COMMA), W(e(), M.L_COND)), M.L_COND)
         if k == 9:
-            return c.choice(["%s++", "%s--", "++%s", "--%s"]) % self.lv_int(d)
+            return ("%s, %s" % (W(e(), M.L_ASG), W(e(), M.L_ASG)), M.L_COMMA)
         if k == 10:
-            return "h0(%s, %s)" % (e(), e())
+            op = c.choice(["=", "+=", "-=", "*=", "/=", "%=", "<<=", ">>=", "&=", "|=", "^="])
+            return ("%s %s %s" % (W(self.lv_int(d), M.L_UNARY), op, W(e(), M.L_ASG)), M.L_ASG)
         if k == 11:
-            return c.choice(["gfp", "(*gfp)", "(gfp)", "(**gfp)"]) + "(%s, %s)" % (e(), e())
+            lv = self.lv_int(d)
+            if c.chance(0.5):
+                return (W(lv, M.L_POSTFIX) + c.choice(["++", "--"]), M.L_POSTFIX)
+            return (c.choice(["++", "--"]) + W(lv, M.L_UNARY), M.L_UNARY)
         if k == 12:
-            return "(int)" + self.P(self.e_dbl(d - 1))
+            return ("h0(%s, %s)" % (W(e(), M.L_ASG), W(e(), M.L_ASG)), M.L_POSTFIX)
         if k == 13:
-            return "(int)sizeof(%s)" % c.choice(["int", "T", "struct S", "int[3]", "int *", "union U", "struct S *", "UL", "int (*)(int, int)", "const volatile T * const *", "enum E", "long long unsigned"])
+            return (c.choice(["gfp", "(*gfp)", "(gfp)", "(**gfp)"]) + "(%s, %s)" % (W(e(), M.L_ASG), W(e(), M.L_ASG)), M.L_POSTFIX)
         if k == 14:
-            return "(int)sizeof %s" % self.P(e())
+            return ("(int)" + W(self.e_dbl(d - 1), M.L_CAST), M.L_CAST)
         if k == 15:
-            return "h2(%s).m" % e()
+            return ("(int)sizeof(%s)" % c.choice(["int", "T", "struct S", "int[3]", "int *", "union U", "struct S *", "UL", "int (*)(int, int)", "const volatile T * const *", "enum E", "long long unsigned"]), M.L_CAST)
         if k == 16:
-            return "(int)(%s - %s)" % (self.e_ptr(d - 1), self.e_ptr(d - 1))
+            return ("(int)sizeof " + W(e(), M.L_UNARY), M.L_CAST)
         if k == 17:
-            return "(%s == %s)" % (self.e_ptr(d - 1), self.e_ptr(d - 1))
+            return ("h2(%s).m" % W(e(), M.L_ASG), M.L_POSTFIX)
         if k == 18:
-            return "(int){%s}" % e()
+            return ("(int)(%s - %s)" % (W(self.e_ptr(d - 1), M.BIN["-"]), W(self.e_ptr(d - 1), M.BIN["-"] + 1)), M.L_CAST)
         if k == 19:
-            return c.choice(["((struct S){.m = %s, .d = 1.0}).m", "(struct S){.m = %s, .d = 1.0}.m", "(int[]){1, %s, 3}[1]", "(int)sizeof (int){%s}"]) % e()
+            return ("%s == %s" % (W(self.e_ptr(d - 1), M.BIN["=="]), W(self.e_ptr(d - 1), M.BIN["=="] + 1)), M.BIN["=="])
         if k == 20:
-            return "(T)(UL)%s" % self.P(e())
+            return ("(int){%s}" % W(e(), M.L_ASG), M.L_POSTFIX)
         if k == 21:
-            return "h3(2, (int[]){%s, 2})" % e()
+            form, lv = c.choice([("((struct S){.m = %s, .d = 1.0}).m", M.L_POSTFIX), ("(struct S){.m = %s, .d = 1.0}.m", M.L_POSTFIX), ("(int[]){1, %s, 3}[1]", M.L_POSTFIX), ("(int)sizeof (int){%s}", M.L_CAST)])
+            return (form % W(e(), M.L_ASG), lv)
         if k == 22:
-            return "h4(1, ga) + h5(ga, %s)" % e()
+            return ("(T)(UL)" + W(e(), M.L_CAST), M.L_CAST)
         if k == 23:
-            return "(int)gs.bf + (gs.bg = %s & 7)" % self.P(e())
+            return ("h3(2, (int[]){%s, 2})" % W(e(), M.L_ASG), M.L_POSTFIX)
         if k == 24:
-            return "(int)(gc + gu2 + gl)"
-        return "*" + self.P(self.e_ptr(d - 1))
-
-    def atom(self, d):
-        return self.c.choice([self.ilit(), self.lv_int(0), "h0(1, 2)", "ga[1]", "gs.m", "-" + self.ilit() if False else self.ilit()])
+            return ("h4(1, ga) + h5(ga, %s)" % W(e(), M.L_ASG), M.BIN["+"])
+        if k == 25:
+            return ("(int)gs.bf + (gs.bg = %s & 7)" % W(e(), M.BIN["&"]), M.BIN["+"])
+        return ("*" + W(self.e_ptr(d - 1), M.L_CAST), M.L_UNARY)
 
     def e_dbl(self, d):
         c = self.c
+        W = self.W
         if d <= 0 or c.chance(0.3):
-            return c.choice(DBL_LITS + ["gd", "gs.d", "gu.f"] + self.vars("double"))
-        k = c.below(6)
+            v = c.choice(DBL_LITS + ["gd", "gs.d", "gu.f"] + self.vars("double"))
+            return (v, M.L_POSTFIX if "." in v and v[0].isalpha() else M.L_PRIMARY)
+        k = c.below(7)
         e = lambda: self.e_dbl(d - 1)  # noqa: E731
-        if k == 0:
-            return "%s %s %s" % (self.P(e()), c.choice("+-*/"), self.P(e()))
-        if k == 1:
-            return "-" + self.P(e())
+        if k <= 1:
+            op = c.choice("+-*/")
+            return ("%s %s %s" % (W(e(), M.BIN[op]), op, W(e(), M.BIN[op] + 1)), M.BIN[op])
         if k == 2:
-            return "h1(%s)" % e()
+            return ("- " + W(e(), M.L_CAST), M.L_UNARY)
         if k == 3:
-            return "(double)" + self.P(self.e_int(d - 1))
+            return ("h1(%s)" % W(e(), M.L_ASG), M.L_POSTFIX)
         if k == 4:
-            return "%s ? %s : %s" % (self.P(self.e_int(d - 1)), e(), self.P(e()))
-        return "(gd = %s)" % e()
+            return ("(double)" + W(self.e_int(d - 1), M.L_CAST), M.L_CAST)
+        if k == 5:
+            return ("%s ? %s : %s" % (W(self.e_int(d - 1), 1), W(e(), M.L_COMMA), W(e(), M.L_COND)), M.L_COND)
+        return ("gd = %s" % W(e(), M.L_ASG), M.L_ASG)
 
     def e_ptr(self, d):
         c = self.c
-        cand = ["&gi", "ga", "&ga[%s & 3]" % (self.e_int(d - 1) if d > 0 else "1"), "gp", "&gs.m", "gs.a", "(int *)0", "&gs.a[1]", "(int[]){1, 2}", "&(int){5}"]
-        cand += self.vars("int*") + ["&" + v for v in self.vars("int") if v not in self.consts and not v.startswith("r_")]
+        W = self.W
+        cand = [("&gi", M.L_UNARY), ("ga", M.L_PRIMARY), ("&ga[%s & 3]" % (W(self.e_int(d - 1), M.BIN["&"] + 1) if d > 0 else "1"), M.L_UNARY), ("gp", M.L_PRIMARY),
+                ("&gs.m", M.L_UNARY), ("gs.a", M.L_POSTFIX), ("(int *)0", M.L_CAST), ("&gs.a[1]", M.L_UNARY), ("(int[]){1, 2}", M.L_POSTFIX), ("&(int){5}", M.L_UNARY)]  # fmt: skip
+        cand += [(v, M.L_PRIMARY) for v in self.vars("int*")] + [("&" + v, M.L_UNARY) for v in self.vars("int") if v not in self.consts and not v.startswith("r_")]
         if d > 0 and c.chance(0.4):
-            return c.choice(["(%s + %s)", "(%s - %s)"]) % (c.choice(cand), self.P(self.e_int(d - 1)))
+            op = c.choice(["+", "-"])
+            return ("%s %s %s" % (W(c.choice(cand), M.BIN[op]), op, W(self.e_int(d - 1), M.BIN[op] + 1)), M.BIN[op])
         if d > 0 and c.chance(0.2):
-            return "(%s ? %s : %s)" % (self.e_int(d - 1), c.choice(cand), c.choice(cand))
+            return ("%s ? %s : %s" % (W(self.e_int(d - 1), 1), W(c.choice(cand), M.L_COMMA), W(c.choice(cand), M.L_COND)), M.L_COND)
         return c.choice(cand)
+
+    # text at a given context level
+    def xi(self, d, need=None):
+        return self.W(self.e_int(d), M.L_ASG if need is None else need)
+
+    def xd(self, d, need=None):
+        return self.W(self.e_dbl(d), M.L_ASG if need is None else need)
+
+    def xp(self, d, need=None):
+        return self.W(self.e_ptr(d), M.L_ASG if need is None else need)
 
     # -- declarations
     def decl(self):
@@ -191,43 +226,43 @@ class SG:
             sc[n] = "int"
             if "const" in q:
                 self.consts.add(n)
-            return "%s%s %s = %s;" % (q, c.choice(["int", "T", "signed", "int", "signed int"]), n, self.e_int(2))
+            return "%s%s %s = %s;" % (q, c.choice(["int", "T", "signed", "int", "signed int"]), n, self.xi(2))
         if k == 3:
             n = "r_" + n
             sc[n] = "int"
-            return "register int %s = %s;" % (n, self.e_int(1))
+            return "register int %s = %s;" % (n, self.xi(1))
         if k == 4:
             sc[n] = "double"
-            return "double %s = %s;" % (n, self.e_dbl(2))
+            return "double %s = %s;" % (n, self.xd(2))
         if k == 5:
             sc[n] = "int*"
             q = c.choice(["", "const ", "restrict ", "volatile "])
             if "const" in q:
                 self.consts.add(n)
-            return "int *%s%s = %s; gi += %s[0];" % (q, n, self.e_ptr(1), n)
+            return "int *%s%s = %s; gi += %s[0];" % (q, n, self.xp(1), n)
         if k == 6:
             m = self.fresh()
             sc[n] = "int"
             sc[m] = "int"
-            return "int %s = %s, %s = %s;" % (n, self.e_int(1), m, self.e_int(1))
+            return "int %s = %s, %s = %s;" % (n, self.xi(1), m, self.xi(1))
         if k == 7:
-            return "struct S %s = { .m = %s, .a = { [1] = %s }, .next = gsp };" % (n, self.e_int(1), self.e_int(1))
+            return "struct S %s = { .m = %s, .a = { [1] = %s }, .next = gsp };" % (n, self.xi(1), self.xi(1))
         if k == 8:
-            return "int %s[3] = { %s, [2] = %s };" % (n, self.e_int(1), self.e_int(1))
+            return "int %s[3] = { %s, [2] = %s };" % (n, self.xi(1), self.xi(1))
         if k == 9:
-            return "struct S %s = h2(%s); struct S *%s_p = &%s;" % (n, self.e_int(1), n, n)
+            return "struct S %s = h2(%s); struct S *%s_p = &%s;" % (n, self.xi(1), n, n)
         if k == 10:
-            return "enum E %s = %s; union U %s_u = { .i = %s };" % (n, c.choice(["E0", "E1", "E2"]), n, self.e_int(1))
+            return "enum E %s = %s; union U %s_u = { .i = %s };" % (n, c.choice(["E0", "E1", "E2"]), n, self.xi(1))
         if k == 11:
             return 'static int %s = 4; static const char %s_s[] = "a" "b\\n"; long long %s_l = 1LL << 3; unsigned char %s_c = \'x\'; long double %s_d = 1.L; _Bool %s_b = 1; short %s_h = 2;' % (n, n, n, n, n, n, n)
         if k == 12:
             sc[n] = "int"
-            return "int %s_a[2][3] = { { 1, 2 }, [1][2] = %s, [1] = { [0] = 7 } }; int %s = %s_a[1][2];" % (n, self.e_int(1), n, n)
+            return "int %s_a[2][3] = { { 1, 2 }, [1][2] = %s, [1] = { [0] = 7 } }; int %s = %s_a[1][2];" % (n, self.xi(1), n, n)
         if k == 13:
-            return "struct { int q; struct { int r; } in; } %s = { .in.r = %s, .q = 1 }; int (*%s_f)(int, int) = &h0; int *%s_ap[2] = { &gi, gp }; int (*%s_pa)[4] = &ga;" % (n, self.e_int(1), n, n, n)
+            return "struct { int q; struct { int r; } in; } %s = { .in.r = %s, .q = 1 }; int (*%s_f)(int, int) = &h0; int *%s_ap[2] = { &gi, gp }; int (*%s_pa)[4] = &ga;" % (n, self.xi(1), n, n, n)
         if k == 14:
             sc[n] = "int"
-            return "int %s_n = (%s & 3) + 1; int %s_vla[%s_n]; int %s = (int)sizeof %s_vla;" % (n, self.e_int(1), n, n, n, n)
+            return "int %s_n = (%s & 3) + 1; int %s_vla[%s_n]; int %s = (int)sizeof %s_vla;" % (n, self.xi(1, M.BIN["&"]), n, n, n, n)
         if k == 15:
             return 'const char *%s = "s" "t"; const int *%s_w = (const int *)L"w";' % (n, n)
         if k == 16 and self.c11:
@@ -240,16 +275,16 @@ class SG:
                 return "_Atomic int %s_at = 1; int * _Atomic %s_ap = gp; _Atomic(T) %s_a2 = 2;" % (n, n, n)
             if r == 3:
                 return 'const char *%s_u8 = u8"a"; const unsigned short *%s_u16 = (const unsigned short *)u"b"; const unsigned *%s_u32 = (const unsigned *)U"c";' % (n, n, n)
-            return "struct A11 %s_an = { .ax = %s, .au = 1 }; int %s_x = %s_an.ax + %s_an.au;" % (n, self.e_int(1), n, n, n)
+            return "struct A11 %s_an = { .ax = %s, .au = 1 }; int %s_x = %s_an.ax + %s_an.au;" % (n, self.xi(1), n, n, n)
         sc[n] = "int"
-        return "typedef int %s_t; %s_t %s = %s;" % (n, n, n, self.e_int(1))
+        return "typedef int %s_t; %s_t %s = %s;" % (n, n, n, self.xi(1))
 
     # -- statements
     def stmt(self, d):
         c = self.c
         self.nstmts += 1
         if d <= 0:
-            opts = [self.e_int(1) + ";", ";", "%s = %s;" % (self.lv_int(1), self.e_int(2))]
+            opts = [self.xi(1, M.L_COMMA) + ";", ";", "%s = %s;" % (self.W(self.lv_int(1), M.L_UNARY), self.xi(2))]
             if self.loop or self.sw:
                 opts.append("break;")
             if self.loop:
@@ -260,19 +295,19 @@ class SG:
         if k == 0:
             return self.block(d - 1)
         if k == 1:
-            return "if (%s) %s" % (self.e_int(2), st())
+            return "if (%s) %s" % (self.xi(2, M.L_COMMA), st())
         if k == 2:
-            return "if (%s) %s else %s" % (self.e_int(2), self.block(d - 1), st())
+            return "if (%s) %s else %s" % (self.xi(2, M.L_COMMA), self.block(d - 1), st())
         if k == 3:
             self.loop += 1
             b = st()
             self.loop -= 1
-            return "while (%s) %s" % (self.e_int(2), b)
+            return "while (%s) %s" % (self.xi(2, M.L_COMMA), b)
         if k == 4:
             self.loop += 1
             b = st()
             self.loop -= 1
-            return "do %s while (%s);" % (b, self.e_int(1))
+            return "do %s while (%s);" % (b, self.xi(1, M.L_COMMA))
         if k == 5:
             self.scopes.append({})
             i = self.fresh("i")
@@ -284,12 +319,12 @@ class SG:
             second = ""
             if self.c.chance(0.3):
                 second = ", %s_j = 1" % i
-            return "for (int %s = 0%s; %s < %s; %s++) %s" % (i, second, i, self.e_int(1), i, b)
+            return "for (int %s = 0%s; %s < %s; %s++) %s" % (i, second, i, self.xi(1, M.BIN["<"] + 1), i, b)
         if k == 6:
             self.loop += 1
             b = st()
             self.loop -= 1
-            return "for (%s; %s; %s) %s" % (c.choice(["", self.e_int(1)]), c.choice(["", self.e_int(1)]), c.choice(["", self.e_int(1)]), b)
+            return "for (%s; %s; %s) %s" % (c.choice(["", self.xi(1, M.L_COMMA)]), c.choice(["", self.xi(1, M.L_COMMA)]), c.choice(["", self.xi(1, M.L_COMMA)]), b)
         if k == 7:
             self.sw += 1
             pool = ["0", "1", "2", "E1", "7", "'a'", "(1 + 9)", "sizeof(char) + 20"]
@@ -304,9 +339,9 @@ class SG:
             if c.chance(0.6):
                 body += "default: %s " % self.stmt(d - 1)
             self.sw -= 1
-            return "switch (%s) { %s}" % (self.e_int(2), body)
+            return "switch (%s) { %s}" % (self.xi(2, M.L_COMMA), body)
         if k == 8:
-            return "return %s;" % self.e_int(2)
+            return "return %s;" % self.xi(2, M.L_COMMA)
         if k == 9:
             lab = self.fresh("L")
             self.labels.append(lab)
@@ -314,16 +349,16 @@ class SG:
         if k == 10 and self.labels:
             return "goto %s;" % c.choice(self.labels)
         if k == 11 and self.on("stmt.pragma_before_substatement"):
-            return "if (%s)\n#pragma omp parallel\n%s" % (self.e_int(1), st())
+            return "if (%s)\n#pragma omp parallel\n%s" % (self.xi(1), st())
         if k == 12:
-            return "(void)%s;" % self.P(self.e_dbl(2))
+            return "(void)%s;" % self.xd(2, M.L_CAST)
         if k == 13:
-            return "gs = h2(%s);" % self.e_int(1)
+            return "gs = h2(%s);" % self.xi(1)
         if k == 14:
             return "{\n#pragma omp barrier\n%s }" % st()
         if k == 15:
             return "h7(%s, &gi);" % c.choice(["h0", "gfp", "&h0", "*gfp"])
-        return self.e_int(3) + ";"
+        return self.xi(3, M.L_COMMA) + ";"
 
     def block(self, d):
         self.scopes.append({})
